@@ -134,13 +134,14 @@ func makeColumnDef(name string, typ string, cs []columnConstraint) ColumnDef {
 	return cd
 }
 
-// the value of `DEFAULT <bare word>`
+// the value of `DEFAULT <bare word>`: TRUE and FALSE are booleans, anything
+// else is a string
 func bareDefault(s string) interface{} {
 	switch strings.ToUpper(s) {
 	case "TRUE":
-		return int64(1)
+		return true
 	case "FALSE":
-		return int64(0)
+		return false
 	}
 	return s
 }
